@@ -199,6 +199,52 @@ module Pos =
 
 module Coq_Pos =
  struct
+  (** val succ : positive -> positive **)
+
+  let rec succ = function
+  | XI p -> XO (succ p)
+  | XO p -> XI p
+  | XH -> XO XH
+
+  (** val add : positive -> positive -> positive **)
+
+  let rec add x y =
+    match x with
+    | XI p ->
+      (match y with
+       | XI q -> XO (add_carry p q)
+       | XO q -> XI (add p q)
+       | XH -> XO (succ p))
+    | XO p ->
+      (match y with
+       | XI q -> XI (add p q)
+       | XO q -> XO (add p q)
+       | XH -> XI p)
+    | XH -> (match y with
+             | XI q -> XO (succ q)
+             | XO q -> XI q
+             | XH -> XO XH)
+
+  (** val add_carry : positive -> positive -> positive **)
+
+  and add_carry x y =
+    match x with
+    | XI p ->
+      (match y with
+       | XI q -> XI (add_carry p q)
+       | XO q -> XO (add_carry p q)
+       | XH -> XI (succ p))
+    | XO p ->
+      (match y with
+       | XI q -> XO (add_carry p q)
+       | XO q -> XI (add p q)
+       | XH -> XO (succ p))
+    | XH ->
+      (match y with
+       | XI q -> XI (succ q)
+       | XO q -> XO (succ q)
+       | XH -> XI XH)
+
   (** val pred_double : positive -> positive **)
 
   let rec pred_double = function
@@ -265,6 +311,14 @@ module Coq_Pos =
        | XH -> double_pred_mask p)
     | XH -> IsNeg
 
+  (** val mul : positive -> positive -> positive **)
+
+  let rec mul x y =
+    match x with
+    | XI p -> add y (XO (mul p y))
+    | XO p -> XO (mul p y)
+    | XH -> y
+
   (** val compare_cont : comparison -> positive -> positive -> comparison **)
 
   let rec compare_cont r x y =
@@ -305,6 +359,27 @@ module Coq_Pos =
 
 module N =
  struct
+  (** val succ_double : n -> n **)
+
+  let succ_double = function
+  | N0 -> Npos XH
+  | Npos p -> Npos (XI p)
+
+  (** val double : n -> n **)
+
+  let double = function
+  | N0 -> N0
+  | Npos p -> Npos (XO p)
+
+  (** val add : n -> n -> n **)
+
+  let add n0 m =
+    match n0 with
+    | N0 -> m
+    | Npos p -> (match m with
+                 | N0 -> n0
+                 | Npos q -> Npos (Coq_Pos.add p q))
+
   (** val sub : n -> n -> n **)
 
   let sub n0 m =
@@ -317,6 +392,15 @@ module N =
          (match Coq_Pos.sub_mask n' m' with
           | Coq_Pos.IsPos p -> Npos p
           | _ -> N0))
+
+  (** val mul : n -> n -> n **)
+
+  let mul n0 m =
+    match n0 with
+    | N0 -> N0
+    | Npos p -> (match m with
+                 | N0 -> N0
+                 | Npos q -> Npos (Coq_Pos.mul p q))
 
   (** val compare : n -> n -> comparison **)
 
@@ -340,12 +424,57 @@ module N =
                  | N0 -> false
                  | Npos q -> Coq_Pos.eqb p q)
 
+  (** val leb : n -> n -> bool **)
+
+  let leb x y =
+    match compare x y with
+    | Gt -> false
+    | _ -> true
+
   (** val ltb : n -> n -> bool **)
 
   let ltb x y =
     match compare x y with
     | Lt -> true
     | _ -> false
+
+  (** val pos_div_eucl : positive -> n -> n * n **)
+
+  let rec pos_div_eucl a b =
+    match a with
+    | XI a' ->
+      let (q, r) = pos_div_eucl a' b in
+      let r' = succ_double r in
+      if leb b r' then ((succ_double q), (sub r' b)) else ((double q), r')
+    | XO a' ->
+      let (q, r) = pos_div_eucl a' b in
+      let r' = double r in
+      if leb b r' then ((succ_double q), (sub r' b)) else ((double q), r')
+    | XH ->
+      (match b with
+       | N0 -> (N0, (Npos XH))
+       | Npos p -> (match p with
+                    | XH -> ((Npos XH), N0)
+                    | _ -> (N0, (Npos XH))))
+
+  (** val div_eucl : n -> n -> n * n **)
+
+  let div_eucl a b =
+    match a with
+    | N0 -> (N0, N0)
+    | Npos na -> (match b with
+                  | N0 -> (N0, a)
+                  | Npos _ -> pos_div_eucl na b)
+
+  (** val div : n -> n -> n **)
+
+  let div a b =
+    fst (div_eucl a b)
+
+  (** val modulo : n -> n -> n **)
+
+  let modulo a b =
+    snd (div_eucl a b)
  end
 
 module Z =
@@ -365,7 +494,7 @@ module Z =
                  | _ -> false)
  end
 
-type 'line exp = { opt : bool; mul : bool; mt : ('line -> bool) }
+type 'line exp = { opt : bool; mul0 : bool; mt : ('line -> bool) }
 
 type 'line entry =
 | EMatched of nat * (nat * 'line) list
@@ -429,7 +558,7 @@ let rec loop fuel es ei ls li run =
               (if is_nil ls then [] else (EUnexpected (number li ls)) :: []))
         | l :: ls' ->
           if e.mt l
-          then if e.mul
+          then if e.mul0
                then if match es' with
                        | [] -> false
                        | e2 :: _ ->
@@ -506,7 +635,7 @@ let matches_at es l k =
 let step es k =
   match skipn k es with
   | [] -> ([], false)
-  | e :: r -> if e.mul then ((e :: r), true) else (r, false)
+  | e :: r -> if e.mul0 then ((e :: r), true) else (r, false)
 
 (** val detb : 'a1 exp list -> bool -> 'a1 list -> bool **)
 
@@ -550,7 +679,7 @@ let rec go e k first ls =
   (||) ((&&) ((||) (negb first) e.opt) (k ls))
     (match ls with
      | [] -> false
-     | l :: ls' -> (&&) ((&&) (e.mt l) ((||) first e.mul)) (go e k false ls'))
+     | l :: ls' -> (&&) ((&&) (e.mt l) ((||) first e.mul0)) (go e k false ls'))
 
 (** val describedb : 'a1 exp list -> 'a1 list -> bool **)
 
@@ -588,7 +717,7 @@ let entry_okb es = function
     (match nth_error es i with
      | Some e ->
        (&&) (forallb (fun p -> e.mt (snd p)) b)
-         ((||) e.mul (Nat.eqb (length b) (S O)))
+         ((||) e.mul0 (Nat.eqb (length b) (S O)))
      | None -> false)
 | EUnmatched i ->
   (match nth_error es i with
@@ -1046,3 +1175,551 @@ let stream_ok os stdout_ok stderr_ok =
                   | XH -> stderr_ok
                   | _ -> stdout_ok))
   | None -> stdout_ok
+
+(** val is_scalar : n -> bool **)
+
+let is_scalar c =
+  (||)
+    (N.ltb c (Npos (XO (XO (XO (XO (XO (XO (XO (XO (XO (XO (XO (XI (XI (XO
+      (XI XH)))))))))))))))))
+    ((&&)
+      (N.leb (Npos (XO (XO (XO (XO (XO (XO (XO (XO (XO (XO (XO (XO (XO (XI
+        (XI XH)))))))))))))))) c)
+      (N.ltb c (Npos (XO (XO (XO (XO (XO (XO (XO (XO (XO (XO (XO (XO (XO (XO
+        (XO (XO (XI (XO (XO (XO XH)))))))))))))))))))))))
+
+(** val enc : n -> n list **)
+
+let enc c =
+  if N.ltb c (Npos (XO (XO (XO (XO (XO (XO (XO XH))))))))
+  then c :: []
+  else if N.ltb c (Npos (XO (XO (XO (XO (XO (XO (XO (XO (XO (XO (XO
+            XH))))))))))))
+       then (N.add (Npos (XO (XO (XO (XO (XO (XO (XI XH))))))))
+              (N.div c (Npos (XO (XO (XO (XO (XO (XO XH))))))))) :: (
+              (N.add (Npos (XO (XO (XO (XO (XO (XO (XO XH))))))))
+                (N.modulo c (Npos (XO (XO (XO (XO (XO (XO XH))))))))) :: [])
+       else if N.ltb c (Npos (XO (XO (XO (XO (XO (XO (XO (XO (XO (XO (XO (XO
+                 (XO (XO (XO (XO XH)))))))))))))))))
+            then (N.add (Npos (XO (XO (XO (XO (XO (XI (XI XH))))))))
+                   (N.div c (Npos (XO (XO (XO (XO (XO (XO (XO (XO (XO (XO (XO
+                     (XO XH))))))))))))))) :: ((N.add (Npos (XO (XO (XO (XO
+                                                 (XO (XO (XO XH))))))))
+                                                 (N.modulo
+                                                   (N.div c (Npos (XO (XO (XO
+                                                     (XO (XO (XO XH))))))))
+                                                   (Npos (XO (XO (XO (XO (XO
+                                                   (XO XH))))))))) :: (
+                   (N.add (Npos (XO (XO (XO (XO (XO (XO (XO XH))))))))
+                     (N.modulo c (Npos (XO (XO (XO (XO (XO (XO XH))))))))) :: []))
+            else (N.add (Npos (XO (XO (XO (XO (XI (XI (XI XH))))))))
+                   (N.div c (Npos (XO (XO (XO (XO (XO (XO (XO (XO (XO (XO (XO
+                     (XO (XO (XO (XO (XO (XO (XO XH))))))))))))))))))))) :: (
+                   (N.add (Npos (XO (XO (XO (XO (XO (XO (XO XH))))))))
+                     (N.modulo
+                       (N.div c (Npos (XO (XO (XO (XO (XO (XO (XO (XO (XO (XO
+                         (XO (XO XH)))))))))))))) (Npos (XO (XO (XO (XO (XO
+                       (XO XH))))))))) :: ((N.add (Npos (XO (XO (XO (XO (XO
+                                             (XO (XO XH))))))))
+                                             (N.modulo
+                                               (N.div c (Npos (XO (XO (XO (XO
+                                                 (XO (XO XH)))))))) (Npos (XO
+                                               (XO (XO (XO (XO (XO XH))))))))) :: (
+                   (N.add (Npos (XO (XO (XO (XO (XO (XO (XO XH))))))))
+                     (N.modulo c (Npos (XO (XO (XO (XO (XO (XO XH))))))))) :: [])))
+
+(** val cont : n -> bool **)
+
+let cont b =
+  (&&) (N.leb (Npos (XO (XO (XO (XO (XO (XO (XO XH)))))))) b)
+    (N.ltb b (Npos (XO (XO (XO (XO (XO (XO (XI XH)))))))))
+
+(** val dec1 : n list -> (n * n list) option **)
+
+let dec1 = function
+| [] -> None
+| b0 :: r ->
+  if N.ltb b0 (Npos (XO (XO (XO (XO (XO (XO (XO XH))))))))
+  then Some (b0, r)
+  else if N.ltb b0 (Npos (XO (XI (XO (XO (XO (XO (XI XH))))))))
+       then None
+       else if N.ltb b0 (Npos (XO (XO (XO (XO (XO (XI (XI XH))))))))
+            then (match r with
+                  | [] -> None
+                  | b1 :: r1 ->
+                    if cont b1
+                    then Some
+                           ((N.add
+                              (N.mul
+                                (N.sub b0 (Npos (XO (XO (XO (XO (XO (XO (XI
+                                  XH))))))))) (Npos (XO (XO (XO (XO (XO (XO
+                                XH))))))))
+                              (N.sub b1 (Npos (XO (XO (XO (XO (XO (XO (XO
+                                XH)))))))))), r1)
+                    else None)
+            else if N.ltb b0 (Npos (XO (XO (XO (XO (XI (XI (XI XH))))))))
+                 then (match r with
+                       | [] -> None
+                       | b1 :: l ->
+                         (match l with
+                          | [] -> None
+                          | b2 :: r2 ->
+                            if (&&) (cont b1) (cont b2)
+                            then let c =
+                                   N.add
+                                     (N.add
+                                       (N.mul
+                                         (N.sub b0 (Npos (XO (XO (XO (XO (XO
+                                           (XI (XI XH))))))))) (Npos (XO (XO
+                                         (XO (XO (XO (XO (XO (XO (XO (XO (XO
+                                         (XO XH))))))))))))))
+                                       (N.mul
+                                         (N.sub b1 (Npos (XO (XO (XO (XO (XO
+                                           (XO (XO XH))))))))) (Npos (XO (XO
+                                         (XO (XO (XO (XO XH)))))))))
+                                     (N.sub b2 (Npos (XO (XO (XO (XO (XO (XO
+                                       (XO XH)))))))))
+                                 in
+                                 if (&&)
+                                      (N.leb (Npos (XO (XO (XO (XO (XO (XO
+                                        (XO (XO (XO (XO (XO XH)))))))))))) c)
+                                      (is_scalar c)
+                                 then Some (c, r2)
+                                 else None
+                            else None))
+                 else if N.ltb b0 (Npos (XI (XO (XI (XO (XI (XI (XI XH))))))))
+                      then (match r with
+                            | [] -> None
+                            | b1 :: l ->
+                              (match l with
+                               | [] -> None
+                               | b2 :: l0 ->
+                                 (match l0 with
+                                  | [] -> None
+                                  | b3 :: r3 ->
+                                    if (&&) ((&&) (cont b1) (cont b2))
+                                         (cont b3)
+                                    then let c =
+                                           N.add
+                                             (N.add
+                                               (N.add
+                                                 (N.mul
+                                                   (N.sub b0 (Npos (XO (XO
+                                                     (XO (XO (XI (XI (XI
+                                                     XH))))))))) (Npos (XO
+                                                   (XO (XO (XO (XO (XO (XO
+                                                   (XO (XO (XO (XO (XO (XO
+                                                   (XO (XO (XO (XO (XO
+                                                   XH))))))))))))))))))))
+                                                 (N.mul
+                                                   (N.sub b1 (Npos (XO (XO
+                                                     (XO (XO (XO (XO (XO
+                                                     XH))))))))) (Npos (XO
+                                                   (XO (XO (XO (XO (XO (XO
+                                                   (XO (XO (XO (XO (XO
+                                                   XH)))))))))))))))
+                                               (N.mul
+                                                 (N.sub b2 (Npos (XO (XO (XO
+                                                   (XO (XO (XO (XO XH)))))))))
+                                                 (Npos (XO (XO (XO (XO (XO
+                                                 (XO XH)))))))))
+                                             (N.sub b3 (Npos (XO (XO (XO (XO
+                                               (XO (XO (XO XH)))))))))
+                                         in
+                                         if (&&)
+                                              (N.leb (Npos (XO (XO (XO (XO
+                                                (XO (XO (XO (XO (XO (XO (XO
+                                                (XO (XO (XO (XO (XO
+                                                XH))))))))))))))))) c)
+                                              (N.ltb c (Npos (XO (XO (XO (XO
+                                                (XO (XO (XO (XO (XO (XO (XO
+                                                (XO (XO (XO (XO (XO (XI (XO
+                                                (XO (XO
+                                                XH))))))))))))))))))))))
+                                         then Some (c, r3)
+                                         else None
+                                    else None)))
+                      else None
+
+(** val dec_all : nat -> n list -> n list option **)
+
+let rec dec_all fuel bs = match bs with
+| [] -> Some []
+| _ :: _ ->
+  (match fuel with
+   | O -> None
+   | S f ->
+     (match dec1 bs with
+      | Some p -> let (c, r) = p in option_map (fun x -> c :: x) (dec_all f r)
+      | None -> None))
+
+(** val utf8_decode : n list -> n list option **)
+
+let utf8_decode bs =
+  dec_all (length bs) bs
+
+(** val utf8_encode : n list -> n list **)
+
+let utf8_encode cs =
+  flat_map enc cs
+
+(** val other_ranges : (n * n) list **)
+
+let other_ranges =
+  (N0, (Npos (XI (XI (XI (XI XH)))))) :: (((Npos (XI (XI (XI (XI (XI (XI
+    XH))))))), (Npos (XI (XI (XI (XI (XI (XO (XO XH))))))))) :: (((Npos (XI
+    (XO (XI (XI (XO (XI (XO XH)))))))), (Npos (XI (XO (XI (XI (XO (XI (XO
+    XH))))))))) :: (((Npos (XO (XO (XO (XO (XO (XO (XO (XO (XO (XI
+    XH))))))))))), (Npos (XI (XO (XI (XO (XO (XO (XO (XO (XO (XI
+    XH)))))))))))) :: (((Npos (XO (XO (XI (XI (XI (XO (XO (XO (XO (XI
+    XH))))))))))), (Npos (XO (XO (XI (XI (XI (XO (XO (XO (XO (XI
+    XH)))))))))))) :: (((Npos (XI (XO (XI (XI (XI (XO (XI (XI (XO (XI
+    XH))))))))))), (Npos (XI (XO (XI (XI (XI (XO (XI (XI (XO (XI
+    XH)))))))))))) :: (((Npos (XI (XI (XI (XI (XO (XO (XO (XO (XI (XI
+    XH))))))))))), (Npos (XI (XI (XI (XI (XO (XO (XO (XO (XI (XI
+    XH)))))))))))) :: (((Npos (XO (XI (XI (XI (XO (XO (XO (XO (XO (XO (XO (XI
+    XH))))))))))))), (Npos (XO (XI (XI (XI (XO (XO (XO (XO (XO (XO (XO (XI
+    XH)))))))))))))) :: (((Npos (XI (XI (XO (XI (XO (XO (XO (XO (XO (XO (XO
+    (XO (XO XH)))))))))))))), (Npos (XI (XI (XI (XI (XO (XO (XO (XO (XO (XO
+    (XO (XO (XO XH))))))))))))))) :: (((Npos (XO (XI (XO (XI (XO (XI (XO (XO
+    (XO (XO (XO (XO (XO XH)))))))))))))), (Npos (XO (XI (XI (XI (XO (XI (XO
+    (XO (XO (XO (XO (XO (XO XH))))))))))))))) :: (((Npos (XO (XO (XO (XO (XO
+    (XI (XI (XO (XO (XO (XO (XO (XO XH)))))))))))))), (Npos (XO (XO (XI (XO
+    (XO (XI (XI (XO (XO (XO (XO (XO (XO XH))))))))))))))) :: (((Npos (XO (XI
+    (XI (XO (XO (XI (XI (XO (XO (XO (XO (XO (XO XH)))))))))))))), (Npos (XI
+    (XI (XI (XI (XO (XI (XI (XO (XO (XO (XO (XO (XO
+    XH))))))))))))))) :: (((Npos (XO (XO (XO (XO (XO (XO (XO (XO (XO (XO (XO
+    (XO (XO (XI (XI XH)))))))))))))))), (Npos (XI (XI (XI (XI (XI (XI (XI (XI
+    (XO (XO (XO (XI (XI (XI (XI XH))))))))))))))))) :: (((Npos (XI (XI (XI
+    (XI (XI (XI (XI (XI (XO (XI (XI (XI (XI (XI (XI XH)))))))))))))))), (Npos
+    (XI (XI (XI (XI (XI (XI (XI (XI (XO (XI (XI (XI (XI (XI (XI
+    XH))))))))))))))))) :: (((Npos (XI (XO (XO (XI (XI (XI (XI (XI (XI (XI
+    (XI (XI (XI (XI (XI XH)))))))))))))))), (Npos (XI (XI (XO (XI (XI (XI (XI
+    (XI (XI (XI (XI (XI (XI (XI (XI XH))))))))))))))))) :: (((Npos (XI (XO
+    (XI (XI (XI (XI (XO (XI (XO (XO (XO (XO (XI (XO (XO (XO
+    XH))))))))))))))))), (Npos (XI (XO (XI (XI (XI (XI (XO (XI (XO (XO (XO
+    (XO (XI (XO (XO (XO XH)))))))))))))))))) :: (((Npos (XO (XO (XO (XO (XO
+    (XI (XO (XI (XO (XO (XI (XI (XI (XI (XO (XI XH))))))))))))))))), (Npos
+    (XI (XI (XO (XO (XO (XI (XO (XI (XO (XO (XI (XI (XI (XI (XO (XI
+    XH)))))))))))))))))) :: (((Npos (XI (XI (XO (XO (XI (XI (XI (XO (XI (XO
+    (XO (XO (XI (XO (XI (XI XH))))))))))))))))), (Npos (XO (XI (XO (XI (XI
+    (XI (XI (XO (XI (XO (XO (XO (XI (XO (XI (XI
+    XH)))))))))))))))))) :: (((Npos (XI (XO (XO (XO (XO (XO (XO (XO (XO (XO
+    (XO (XO (XO (XO (XO (XO (XO (XI (XI XH)))))))))))))))))))), (Npos (XI (XO
+    (XO (XO (XO (XO (XO (XO (XO (XO (XO (XO (XO (XO (XO (XO (XO (XI (XI
+    XH))))))))))))))))))))) :: (((Npos (XO (XO (XO (XO (XO (XI (XO (XO (XO
+    (XO (XO (XO (XO (XO (XO (XO (XO (XI (XI XH)))))))))))))))))))), (Npos (XI
+    (XI (XI (XI (XI (XI (XI (XO (XO (XO (XO (XO (XO (XO (XO (XO (XO (XI (XI
+    XH))))))))))))))))))))) :: (((Npos (XO (XO (XO (XO (XO (XO (XO (XO (XO
+    (XO (XO (XO (XO (XO (XO (XO (XI (XI (XI XH)))))))))))))))))))), (Npos (XI
+    (XO (XI (XI (XI (XI (XI (XI (XI (XI (XI (XI (XI (XI (XI (XI (XI (XI (XI
+    XH))))))))))))))))))))) :: (((Npos (XO (XO (XO (XO (XO (XO (XO (XO (XO
+    (XO (XO (XO (XO (XO (XO (XO (XO (XO (XO (XO XH))))))))))))))))))))),
+    (Npos (XI (XO (XI (XI (XI (XI (XI (XI (XI (XI (XI (XI (XI (XI (XI (XI (XO
+    (XO (XO (XO XH)))))))))))))))))))))) :: [])))))))))))))))))))))
+
+(** val hexd : n -> n **)
+
+let hexd d =
+  if N.ltb d (Npos (XO (XI (XO XH))))
+  then N.add (Npos (XO (XO (XO (XO (XI XH)))))) d
+  else N.add (Npos (XI (XI (XI (XO (XI (XO XH))))))) d
+
+(** val printable : n -> bool **)
+
+let printable b =
+  (&&) (N.leb (Npos (XO (XO (XO (XO (XO XH)))))) b)
+    (N.leb b (Npos (XO (XI (XI (XI (XI (XI XH))))))))
+
+(** val byte_to_ascii : n -> n list **)
+
+let byte_to_ascii b =
+  if N.eqb b (Npos (XO (XI (XO XH))))
+  then (Npos (XO (XO (XI (XI (XI (XO XH))))))) :: ((Npos (XO (XI (XI (XI (XO
+         (XI XH))))))) :: [])
+  else if N.eqb b (Npos (XI (XO (XI XH))))
+       then (Npos (XO (XO (XI (XI (XI (XO XH))))))) :: ((Npos (XO (XI (XO (XO
+              (XI (XI XH))))))) :: [])
+       else if N.eqb b (Npos (XI (XO (XO XH))))
+            then (Npos (XO (XO (XI (XI (XI (XO XH))))))) :: ((Npos (XO (XO
+                   (XI (XO (XI (XI XH))))))) :: [])
+            else if N.eqb b (Npos (XI (XI XH)))
+                 then (Npos (XO (XO (XI (XI (XI (XO XH))))))) :: ((Npos (XI
+                        (XO (XO (XO (XO (XI XH))))))) :: [])
+                 else if N.eqb b (Npos (XO (XO (XO XH))))
+                      then (Npos (XO (XO (XI (XI (XI (XO XH))))))) :: ((Npos
+                             (XO (XI (XO (XO (XO (XI XH))))))) :: [])
+                      else if N.eqb b (Npos (XO (XO (XI XH))))
+                           then (Npos (XO (XO (XI (XI (XI (XO
+                                  XH))))))) :: ((Npos (XO (XI (XI (XO (XO (XI
+                                  XH))))))) :: [])
+                           else if N.eqb b (Npos (XI (XI (XO XH))))
+                                then (Npos (XO (XO (XI (XI (XI (XO
+                                       XH))))))) :: ((Npos (XO (XI (XI (XO
+                                       (XI (XI XH))))))) :: [])
+                                else if N.eqb b (Npos (XO (XO (XI (XI (XI (XO
+                                          XH)))))))
+                                     then (Npos (XO (XO (XI (XI (XI (XO
+                                            XH))))))) :: ((Npos (XO (XO (XI
+                                            (XI (XI (XO XH))))))) :: [])
+                                     else if printable b
+                                          then b :: []
+                                          else (Npos (XO (XO (XI (XI (XI (XO
+                                                 XH))))))) :: ((Npos (XO (XO
+                                                 (XO (XI (XI (XI
+                                                 XH))))))) :: ((hexd
+                                                                 (N.div b
+                                                                   (Npos (XO
+                                                                   (XO (XO
+                                                                   (XO
+                                                                   XH))))))) :: (
+                                                 (hexd
+                                                   (N.modulo b (Npos (XO (XO
+                                                     (XO (XO XH))))))) :: [])))
+
+(** val has_unprintable_ascii : n list -> bool **)
+
+let has_unprintable_ascii bs =
+  existsb (fun b -> negb (printable b)) bs
+
+(** val escaped_printable_ascii : n list -> n list **)
+
+let escaped_printable_ascii bs =
+  if has_unprintable_ascii bs then flat_map byte_to_ascii bs else bs
+
+(** val in_ranges : (n * n) list -> n -> bool **)
+
+let in_ranges rs c =
+  existsb (fun r -> (&&) (N.leb (fst r) c) (N.leb c (snd r))) rs
+
+(** val is_other : n -> bool **)
+
+let is_other c =
+  in_ranges other_ranges c
+
+(** val esc_char : bool -> n -> n list **)
+
+let esc_char esc c =
+  if is_other c
+  then escaped_printable_ascii (enc c)
+  else if (&&) (N.eqb c (Npos (XO (XO (XI (XI (XI (XO XH)))))))) esc
+       then (Npos (XO (XO (XI (XI (XI (XO XH))))))) :: ((Npos (XO (XO (XI (XI
+              (XI (XO XH))))))) :: [])
+       else c :: []
+
+(** val escaped_printable_unicode : n list -> n list **)
+
+let escaped_printable_unicode bs =
+  match utf8_decode bs with
+  | Some cs -> flat_map (esc_char (existsb is_other cs)) cs
+  | None -> escaped_printable_ascii bs
+
+(** val has_unprintable_unicode : n list -> bool **)
+
+let has_unprintable_unicode bs =
+  match utf8_decode bs with
+  | Some cs -> existsb is_other cs
+  | None -> true
+
+type mode =
+| Ascii
+| Unicode
+
+type written =
+| Plain of n list
+| Escaped of n list
+
+(** val trim_newlines_rev : n list -> n list **)
+
+let rec trim_newlines_rev r = match r with
+| [] -> r
+| n0 :: t ->
+  (match n0 with
+   | N0 -> r
+   | Npos p ->
+     (match p with
+      | XO p0 ->
+        (match p0 with
+         | XI p1 ->
+           (match p1 with
+            | XO p2 -> (match p2 with
+                        | XH -> trim_newlines_rev t
+                        | _ -> r)
+            | _ -> r)
+         | _ -> r)
+      | _ -> r))
+
+(** val trim_newlines : n list -> n list **)
+
+let trim_newlines l =
+  rev (trim_newlines_rev (rev l))
+
+(** val has_unprintable : mode -> n list -> bool **)
+
+let has_unprintable m bs =
+  match m with
+  | Ascii -> has_unprintable_ascii bs
+  | Unicode -> has_unprintable_unicode bs
+
+(** val escaped_printable : mode -> n list -> n list **)
+
+let escaped_printable m bs =
+  match m with
+  | Ascii -> escaped_printable_ascii bs
+  | Unicode -> escaped_printable_unicode bs
+
+(** val text_of : n list -> n list **)
+
+let text_of bs =
+  match utf8_decode bs with
+  | Some cs -> cs
+  | None -> bs
+
+(** val escaped_expectation : mode -> n list -> written **)
+
+let escaped_expectation m line =
+  let t = trim_newlines line in
+  if has_unprintable m t
+  then Escaped (escaped_printable m t)
+  else Plain (text_of t)
+
+(** val sel : n -> n list **)
+
+let sel c2 =
+  if N.eqb c2 (Npos (XI (XO (XO (XO (XO (XI XH)))))))
+  then (Npos (XI (XI XH))) :: []
+  else if N.eqb c2 (Npos (XO (XI (XO (XO (XO (XI XH)))))))
+       then (Npos (XO (XO (XO XH)))) :: []
+       else if N.eqb c2 (Npos (XI (XO (XI (XO (XO (XI XH)))))))
+            then (Npos (XI (XI (XO (XI XH))))) :: []
+            else if N.eqb c2 (Npos (XO (XI (XI (XO (XO (XI XH)))))))
+                 then (Npos (XO (XO (XI XH)))) :: []
+                 else if N.eqb c2 (Npos (XO (XI (XO (XO (XI (XI XH)))))))
+                      then (Npos (XI (XO (XI XH)))) :: []
+                      else if N.eqb c2 (Npos (XO (XO (XI (XO (XI (XI XH)))))))
+                           then (Npos (XI (XO (XO XH)))) :: []
+                           else if N.eqb c2 (Npos (XO (XI (XI (XO (XI (XI
+                                     XH)))))))
+                                then (Npos (XI (XI (XO XH)))) :: []
+                                else (Npos (XO (XO (XI (XI (XI (XO
+                                       XH))))))) :: (c2 :: [])
+
+(** val unescape_tabs : n list -> n list **)
+
+let rec unescape_tabs = function
+| [] -> []
+| c :: r ->
+  if N.eqb c (Npos (XO (XO (XI (XI (XI (XO XH)))))))
+  then (match r with
+        | [] -> (Npos (XO (XO (XI (XI (XI (XO XH))))))) :: []
+        | c2 :: r' -> app (sel c2) (unescape_tabs r'))
+  else c :: (unescape_tabs r)
+
+(** val digit : n -> n -> n option **)
+
+let digit radix c =
+  let v =
+    if (&&) (N.leb (Npos (XO (XO (XO (XO (XI XH)))))) c)
+         (N.leb c (Npos (XI (XO (XO (XI (XI XH)))))))
+    then Some (N.sub c (Npos (XO (XO (XO (XO (XI XH)))))))
+    else if (&&) (N.leb (Npos (XI (XO (XO (XO (XO (XI XH))))))) c)
+              (N.leb c (Npos (XO (XI (XO (XI (XI (XI XH))))))))
+         then Some (N.sub c (Npos (XI (XI (XI (XO (XI (XO XH))))))))
+         else if (&&) (N.leb (Npos (XI (XO (XO (XO (XO (XO XH))))))) c)
+                   (N.leb c (Npos (XO (XI (XO (XI (XI (XO XH))))))))
+              then Some (N.sub c (Npos (XI (XI (XI (XO (XI XH)))))))
+              else None
+  in
+  (match v with
+   | Some d -> if N.ltb d radix then Some d else None
+   | None -> None)
+
+(** val two : n -> n -> n -> n option **)
+
+let two radix a b =
+  if N.eqb a (Npos (XI (XI (XO (XI (XO XH))))))
+  then digit radix b
+  else (match digit radix a with
+        | Some x ->
+          (match digit radix b with
+           | Some y -> Some (N.add (N.mul x radix) y)
+           | None -> None)
+        | None -> None)
+
+(** val resolve : n list -> n list option **)
+
+let rec resolve = function
+| [] -> Some []
+| c :: r ->
+  if N.eqb c (Npos (XO (XO (XI (XI (XI (XO XH)))))))
+  then (match r with
+        | [] -> None
+        | c2 :: r' ->
+          if N.eqb c2 (Npos (XO (XO (XO (XO (XI XH))))))
+          then (match r' with
+                | [] -> None
+                | a :: l ->
+                  (match l with
+                   | [] -> None
+                   | b :: r'' ->
+                     (match two (Npos (XO (XO (XO XH)))) a b with
+                      | Some v -> option_map (fun x -> v :: x) (resolve r'')
+                      | None -> None)))
+          else if N.eqb c2 (Npos (XO (XO (XO (XI (XI (XI XH)))))))
+               then (match r' with
+                     | [] -> None
+                     | a :: l ->
+                       (match l with
+                        | [] -> None
+                        | b :: r'' ->
+                          (match two (Npos (XO (XO (XO (XO XH))))) a b with
+                           | Some v ->
+                             option_map (fun x -> v :: x) (resolve r'')
+                           | None -> None)))
+               else if N.eqb c2 (Npos (XO (XO (XI (XI (XI (XO XH)))))))
+                    then option_map (fun x -> (Npos (XO (XO (XI (XI (XI (XO
+                           XH))))))) :: x) (resolve r')
+                    else option_map (fun t -> (Npos (XO (XO (XI (XI (XI (XO
+                           XH))))))) :: ((N.modulo c2 (Npos (XO (XO (XO (XO
+                                           (XO (XO (XO (XO XH)))))))))) :: t))
+                           (resolve r'))
+  else option_map (app (enc c)) (resolve r)
+
+(** val decode : n list -> n list option **)
+
+let decode cs =
+  resolve (unescape_tabs cs)
+
+(** val list_eqb : n list -> n list -> bool **)
+
+let rec list_eqb a b =
+  match a with
+  | [] -> (match b with
+           | [] -> true
+           | _ :: _ -> false)
+  | x :: a' ->
+    (match b with
+     | [] -> false
+     | y :: b' -> (&&) (N.eqb x y) (list_eqb a' b'))
+
+(** val escaped_matches : n list -> n list -> bool option **)
+
+let escaped_matches text line =
+  match decode text with
+  | Some bs -> Some (list_eqb bs (trim_newlines line))
+  | None -> None
+
+(** val make_exp : bool -> bool -> (nat -> bool) -> nat exp **)
+
+let make_exp o m f =
+  { opt = o; mul0 = m; mt = f }
+
+(** val exp_opt : nat exp -> bool **)
+
+let exp_opt e =
+  e.opt
+
+(** val exp_mul : nat exp -> bool **)
+
+let exp_mul e =
+  e.mul0
